@@ -211,7 +211,7 @@ Plan gen_c14(uint64_t seed, const GenOpts &o, const char *name = "C14") {
     else if (k < 80) g.op(OP_TERMINATE, h);
     else if (k < 84) g.op(OP_KILL, h);
     else if (k < 90) { Op &op = g.op(OP_STOP, h); int st[6]; rand_stop(g, st, g.chance(15)); op.a = st[0]; op.b = st[1]; op.c = st[2]; op.d = st[3]; op.e = st[4]; op.f = st[5]; }
-    else if (k < 93) { Op &op = g.op(OP_DRAIN, h); op.a = g.pick({ 0, 1, 2, 5 }); op.b = g.pick({ 0, 1, 2, 5 }); if (g.chance(5)) op.a = 6; op.c = g.chance(20) ? (int64_t) g.r.range(1, 5) : 0; op.d = -5; op.e = g.chance(30) ? 3 : 0; }
+    else if (k < 93) { Op &op = g.op(OP_DRAIN, h); op.a = g.pick({ 0, 1, 2, 5 }); op.b = g.pick({ 0, 1, 2, 5 }); if (g.chance(5)) op.a = 6; op.c = g.chance(20) ? (int64_t) g.r.range(1, 5) : 0; op.d = g.pick({ -5, -32, -32, -110, -11, -22 }); op.e = g.chance(30) ? 3 : 0; }
     else if (k < 96) g.op(OP_DESTROY, h);
     else if (k < 98) { Op &op = g.op(OP_STRERROR, -1); op.a = g.pick({ 0, -1, -22, -32, -110, 5, INT_MIN, INT_MAX, -99999 }); }
     else { Op &op = g.op(OP_SLEEP, -1); op.a = g.pick({ 1, 5, 50, 500 }); }
@@ -409,7 +409,8 @@ Plan gen_c03(uint64_t seed, const GenOpts &o) {
   (void) have_path;
   g.add_child(child_quiet(0, false, 0));
   StartSpec s = simple_start(g, 0);
-  s.prog = (int) g.pick({ 0, 1, 1, 2, 2, 3, 3 });
+  s.prog = (int) g.pick({ 0, 1, 1, 2, 2, 3, 3, 9, 10 });
+  if ((s.prog == 9) && g.p.w.cwd_depth < 1) s.prog = 1;
   s.wd = (int) g.pick({ 0, 0, 1, 1, 4, 5 });
   if (g.chance(8)) s.wd = (int) g.pick({ 2, 3 });
   if (g.chance(5)) s.prog = (int) g.pick({ 4, 5, 7 });
@@ -450,7 +451,7 @@ StartSpec rand_scenario(G &g, int child) {
   if (g.chance(40)) { s.env_null = false; s.env_extra = { "A=1", "B=two" }; }
   if (g.chance(20)) s.env_behavior = g.C.ENV_EMPTY;
   if (g.chance(40)) s.wd = (int) g.pick({ 1, 4, 5 });
-  if (g.chance(40)) s.prog = (int) g.pick({ 1, 2, 3 });
+  if (g.chance(40)) s.prog = (int) g.pick({ 1, 2, 3, 9, 10 });
   if (g.chance(20)) s.nonblocking = true;
   if (g.chance(20)) s.deadline = (int) g.pick({ 10, 1000 });
   return s;
@@ -815,7 +816,12 @@ Plan gen_c11(uint64_t seed, const GenOpts &o) {
   }
   if (g.chance(35) && lim <= 100000) { ExtraFd x; x.fd = (int) lim - 1; x.kind = (int) g.r.below(4); x.cloexec = g.chance(20); g.p.w.extra.push_back(x); }
   if (g.chance(10)) g.p.w.low_fds = (int) g.r.below(8);
-  int nthreads = g.chance(40) ? (int) g.r.range(2, 4) : 1;
+  bool rlimit_fault = seed % 25 == 3;
+  if (rlimit_fault) {
+    w.rlim_cur = (uint64_t) g.pick({ 2048, 4096 }); lim = w.rlim_cur;
+    for (int i = 0; i < 3; i++) { ExtraFd x; x.fd = (int) g.r.range(1024, (int64_t) lim - 1); x.kind = 0; x.cloexec = false; g.p.w.extra.push_back(x); }
+  }
+  int nthreads = !rlimit_fault && g.chance(40) ? (int) g.r.range(2, 4) : 1;
   if (nthreads > 1) { w.preempt_num = (unsigned) g.pick({ 10, 30, 60 }); w.reoccupy_num = 0; }
   for (int t = 0; t < nthreads; t++) {
     ChildSpec c;
@@ -827,6 +833,7 @@ Plan gen_c11(uint64_t seed, const GenOpts &o) {
     if (g.chance(50)) rand_redirects(g, s);
     s.stop[0] = g.C.S_KILL; s.stop[1] = g.C.INFINITE_;
     Op &st = g.op(OP_START, t, t); st.spec = g.add_start(s);
+    if (rlimit_fault) g.fault((int) g.p.ops.size() - 1, K_getrlimit, 1, true, (int) g.pick({ EPERM, EINVAL }));
     g.op(OP_CLOSE, t, t).a = g.C.STREAM_IN;
     g.op(OP_WAIT, t, t).a = 1000;
     g.op(OP_DESTROY, t, t);
@@ -876,7 +883,7 @@ Plan gen_c16(uint64_t seed, const GenOpts &o) {
     d.a = g.pick({ 0, 0, 0, 1, 1, 2 });
     d.b = g.pick({ 0, 0, 0, 1, 1, 2 });
     if (cxx) { if (g.chance(20)) d.a = g.pick({ 3, 4 }); if (g.chance(20)) d.b = g.pick({ 3, 4 }); }
-    if (g.chance(25) && (d.a == 0 || d.b == 0)) { d.c = g.pick({ 1, 2, 3, 4, 6, 9 }); d.d = g.pick({ -5, -22, -110, cxx ? -7 : 7, cxx ? -1 : 1 }); }
+    if (g.chance(25) && (d.a == 0 || d.b == 0)) { d.c = g.pick({ 1, 2, 3, 4, 6, 9 }); d.d = g.pick({ -5, -22, -110, -32, cxx ? -7 : 7, cxx ? -1 : 1 }); }
     d.e = g.chance(40) ? g.pick({ 1, 5, 300 }) : 0;
   };
   if (g.chance(70)) {
@@ -950,6 +957,7 @@ Plan gen_c20(uint64_t seed, const GenOpts &o) {
   World &w = g.p.w.k;
   w.preempt_num = (unsigned) g.pick({ 10, 30, 60, 100 });
   w.reoccupy_num = 0;
+  if (g.chance(50)) g.p.w.mask = g.r.next();  // every thread gets its own rotation of this mask
   int scenario = (int) (seed % 4);
   if (scenario == 3) {
     // thread 0: a child that closes its stdin at once; writes fail with the closed-pipe error while thread 1 starts children
@@ -1032,6 +1040,8 @@ Plan gen_c20(uint64_t seed, const GenOpts &o) {
         s.stop[0] = g.C.S_WAIT; s.stop[1] = 1000; s.stop[2] = g.C.S_KILL; s.stop[3] = g.C.INFINITE_;
         if (g.chance(30)) { s.env_null = false; s.env_extra = { "T=" + std::to_string(t) }; }
         if (g.chance(30)) s.wd = 1;
+        if (g.chance(40)) { s.wd = (int) g.pick({ 1, 5 }); s.prog = (int) g.pick({ 1, 2, 10 }); }
+        if (g.chance(35)) s.err.path = 1;  // a redirect file that has to be created
         Op &st = g.op(OP_START, t, t); st.spec = g.add_start(s);
         Op &wr = g.op(OP_WRITE, t, t); wr.a = g.pick({ 1, 100 }); wr.c = 1;
         g.op(OP_CLOSE, t, t).a = g.C.STREAM_IN;
